@@ -23,7 +23,8 @@ META = {
     "explanation": "Abstract interpretation of the date/index code with the domain {invariant, equivariant, neither}: one "
                    "obligation per decision point (branch condition, subscript index, returned value) of each scoped "
                    "function; an obligation fails only when an explicitly non-invariant source (ISO week/year number, "
-                   "calendar month/day/year, month/year deltas) reaches it.",
+                   "calendar month/day/year, month/year deltas) reaches it."
+                   " Also: keyword census of every relativedelta call (relative fields only) and the month/year frame end used as an anchor of backward tasks (known finding F55).",
     "assumptions": ["UTC project (the property's premise): time-zone conversion is a fixed offset",
                     "project duration in months/years sizes the horizon; its use as the anchor of backward tasks without a deadline is reported by R14.3 (known finding F55)"],
 }
